@@ -24,6 +24,8 @@ var c01Families = []family{
 	{`mutation { a(x: 1) b(x: 2) c { id best { id } } }`, nil},
 	{`{ me { secret echo(s: "x") __typename } }`, nil},
 	{`{ me { boss { id } pet { __typename } } strict { boss { id } pet { __typename } } user(id: "7") { boss { id } } }`, nil},
+	{`{ me { echo(s: "x") a: echo(o: "fine") b: echo(o: "bad") c: echo(n: 5) } }`, nil},
+	{`{ nodes { ... on User { best { id } } link { id name age } ... on User { link { best { id } } } ... on Item { link { boss { id } } } } }`, nil},
 	{`query($v1: Boolean!) { me { best { id } boss { id age } friends { id best @include(if: $v1) { id } } pet { __typename } items { title owner { id } } } }`, []string{"v1"}},
 }
 
